@@ -744,6 +744,9 @@ func (fr *frame) toTerm(v value, like *Term) *Term {
 		}
 		return &Term{s: "false"}
 	case *Sym:
+		if _, isBool := v.leaves[0].(bool); isBool {
+			return &Term{s: fr.i.ctx.symBoolToSMT(v)}
+		}
 		// ite chain over rows
 		ctx := fr.i.ctx
 		asg := make([]int, len(v.vars))
